@@ -997,7 +997,9 @@ func (w *Worker) Nack(ctx context.Context, batch *Batch, taskID string) error {
 			// Both are fatal, so classification is unaffected either way — this
 			// is about not throwing away the cause.
 			if err != nil {
-				return cerrors.FatalError(cerrors.Errorf("%w (while handling: %w)", posErr, err))
+				// cerrors.Errorf wraps at most one error, so join the two
+				// instead: both stay reachable through the chain.
+				return cerrors.FatalError(cerrors.Join(posErr, cerrors.Errorf("while handling: %w", err)))
 			}
 			return cerrors.FatalError(posErr)
 		}
